@@ -79,6 +79,8 @@ def build_mat(entry):
     if kind == "nil":
         a = np.triu(r.randint(-2, 3, size=(d, d)).astype(float), 1)
         return a
+    if kind == "eye":
+        return np.eye(d)           # an EXACT identity factor (A (x) 1 and 1 (x) A terms)
     raise ValueError(kind)
 
 
@@ -182,8 +184,8 @@ def gen_spec(rng, site_dims, pairs, nterms, allow3=False, from_lists_p=0.4, swap
     sites = list(site_dims)
     mats = []
 
-    def mat(d):
-        mats.append([d, rng.choice(mats_kinds), rng.randrange(10 ** 6)])
+    def mat(d, kind=None):
+        mats.append([d, kind or rng.choice(mats_kinds), rng.randrange(10 ** 6)])
         return len(mats) - 1
     tps = []
     for _ in range(nterms):
@@ -192,10 +194,14 @@ def gen_spec(rng, site_dims, pairs, nterms, allow3=False, from_lists_p=0.4, swap
             p = list(rng.choice(pairs))
             if rng.random() < 0.5:
                 p.reverse()
-            tps.append([[p[0], mat(site_dims[p[0]])], [p[1], mat(site_dims[p[1]])]])
+            # a third of the two-site terms carry an exact identity on the first or on the second key
+            eye_pos = rng.choice([0, 1]) if rng.random() < 0.34 else None
+            tps.append([[p[0], mat(site_dims[p[0]], "eye" if eye_pos == 0 else None)],
+                        [p[1], mat(site_dims[p[1]], "eye" if eye_pos == 1 else None)]])
         elif allow3 and len(sites) >= 3 and r < 0.7:
             tr = rng.sample(sites, 3)
-            tps.append([[x, mat(site_dims[x])] for x in tr])
+            eye_pos = rng.choice([0, 1, 2]) if rng.random() < 0.34 else None
+            tps.append([[x, mat(site_dims[x], "eye" if j == eye_pos else None)] for j, x in enumerate(tr)])
         else:
             s = rng.choice(sites)
             tps.append([[s, mat(site_dims[s])]])
@@ -320,10 +326,10 @@ class C08(Prop):
     title = "TEBD step = ordered product of Trotter gates and SWAPs"
     design_ref = "DESIGN.md section 5 / C08"
     rule = ("three case families: (split) random Trotter splittings on 2-5 sites of mixed dimension 1-3 (single-, two- and three-site terms, "
-            "keys in either order, 10 factors incl. 0, negative and complex, SWAP lists before/after, direct constructor or from_lists with "
+            "keys in either order, a third of the multi-site terms with an exact identity (np.eye) on one position, 10 factors incl. 0, negative and complex, SWAP lists before/after, direct constructor or from_lists with "
             "int/pair/default splittings, `dim` or reference-ttn dimension source) -> gate sequence; (tebd) random trees of 2-6 nodes built with "
             "shuffled legs (some bystander nodes with 0 or 2 open legs), nearest-neighbour splittings with generic non-Hermitian / real / Hermitian / "
-            "integer-nilpotent generators, 1-3 steps, truncation off or random (max_bond_dim, rel_tol, total_tol), observed after every sub-operation "
+            "integer-nilpotent generators, 1-3 steps, truncation off or random (value or sum mode, max_bond_dim 1-4 that binds, tiny to large tolerances, renorm / sum_renorm on and off), observed after every sub-operation "
             "of every gate; (swapmat) swap_gate(d), d = 0..6; plus a malformed stream (non-neighbours, unequal SWAP dimensions, three-site terms, "
             "unknown identifiers, wrong operator size, out-of-range from_lists indices) that both sides must reject at the same place. "
             "non-trivial = a tebd case with a two-site gate or a split case with at least two gates")
@@ -563,9 +569,18 @@ class C08(Prop):
                         s = spec["steps"][min(pos, len(spec["steps"]) - 1)]
                         s[rng.choice(["before", "after"])] = [bad_swap]
         if case["trunc"]:
-            svd = SVDParameters(max_bond_dim=rng.choice([1, 2, 3, 4]), rel_tol=rng.choice([float("-inf"), 1e-3, 0.2]),
-                                total_tol=rng.choice([float("-inf"), 1e-6, 0.3]))
-            svd_desc = [svd.max_bond_dim, svd.rel_tol, svd.total_tol]
+            if rng.random() < 0.5:
+                # sum mode: tiny tolerances so that a small max_bond_dim is what binds
+                svd = SVDParameters(max_bond_dim=rng.choice([1, 1, 2, 2, 3]), rel_tol=rng.choice([float("-inf"), 1e-12]),
+                                    total_tol=rng.choice([1e-12, 1e-12, 1e-6, 0.3]), renorm=rng.random() < 0.5,
+                                    sum_trunc=True, sum_renorm=rng.random() < 0.5)
+            else:
+                svd = SVDParameters(max_bond_dim=rng.choice([1, 1, 2, 3, 4]), rel_tol=rng.choice([float("-inf"), 1e-12, 1e-3, 0.2]),
+                                    total_tol=rng.choice([float("-inf"), 1e-12, 1e-6, 0.3]), renorm=rng.random() < 0.3,
+                                    sum_trunc=False, sum_renorm=rng.random() < 0.5)
+            svd_desc = [svd.max_bond_dim, svd.rel_tol, svd.total_tol, svd.renorm, svd.sum_trunc, svd.sum_renorm]
+            self._stats["trunc:sum-mode" if svd.sum_trunc else "trunc:value-mode"] += 1
+            self._stats[f"trunc:max_bond={svd.max_bond_dim}"] += 1
         else:
             svd = util.no_trunc()
             svd_desc = None
